@@ -550,7 +550,7 @@ def derivatives_rel(run, core):
 
 # ----------------------------------------------------------------------------- bounded stand-ins
 def bounded(run):
-    nscen = 240 if run.tier == "quick" else 3000
+    nscen = 240 if run.tier == "quick" else 3000 * run.tmul
     jobs = [dict(seed=run.seed * 101 + k, count=nscen // 12) for k in range(12)]
     res, errs = native.pmap("contracts.C04", "nat_sweep", jobs)
     run.worker_errors(errs, len(jobs))
@@ -558,7 +558,7 @@ def bounded(run):
     fails = [f for r in res if r and "_error" not in r for f in r["failures"]]
     run.bounded_result("compiled derivatives under frame rotations and two-fold relabelling of grain subsets (instantaneous rates, rounding level)", f"{MOD}.derivatives",
                        f"{ev} random inputs, 6 fabrics x 2 regimes, integer and non-integer exponents", ev, fails, ev)
-    run_bounded(run, ["C04"], "integrated textures in rotated frames / with relabelled grains (solver tolerance)", "pydrex.minerals.Mineral.update_orientations", per_job=2 if run.tier == "quick" else 20)
+    run_bounded(run, ["C04"], "integrated textures in rotated frames / with relabelled grains (solver tolerance)", "pydrex.minerals.Mineral.update_orientations", per_job=2 if run.tier == "quick" else 20 * run.tmul)
 
 
 def nat_sweep(seed, count):
